@@ -169,6 +169,21 @@ func (P *Program) scanFn(fn *ssa.Function, isInit bool) {
 				if f, ok := x.Fn.(*ssa.Function); ok {
 					P.scanFn(f, false)
 				}
+			case *ssa.MapUpdate:
+				// G[k] = v on a map read straight from a package-level variable: the map's content is not constant
+				if u, ok := x.Map.(*ssa.UnOp); ok {
+					if g, ok := u.X.(*ssa.Global); ok {
+						P.MutGlobals[g] = true
+					}
+				}
+			case *ssa.Call:
+				if b, ok := x.Call.Value.(*ssa.Builtin); ok && b.Name() == "delete" {
+					if u, ok := x.Call.Args[0].(*ssa.UnOp); ok {
+						if g, ok := u.X.(*ssa.Global); ok {
+							P.MutGlobals[g] = true
+						}
+					}
+				}
 			}
 			// address of global escaping as operand of call etc. is ignored (documented assumption)
 		}
